@@ -92,6 +92,34 @@ CHECKS = {
             "reported id {main, dedicated, other} x check on/off are enumerated by TLC and replayed; requests seen on the wire, section presence "
             "and error kind are compared with the model.",
             "Trusted: TLC, scripted transport hook."),
+    "C14": ("model_checking",
+            "Dispatch.tla (AllAgree, RightPort) model-checked with TLC; the three call paths are run against the same scripted server for every "
+            "definition row and the recorded observations are trace-validated by TLC against Trace_Dispatch.tla",
+            "For every row of GAMES (about 100), port given / omitted and server behaviours {valid, dedicated id, foreign id, partial, silent, "
+            "malformed}: generic dispatch, the game's module and the protocol-level query with the definition's parameters must go to the same "
+            "port (the definition's default when omitted), send the same request bytes and return equal results (compared in the module's "
+            "representation, D7). Eco is observed on real listening sockets.",
+            "Trusted: TLC, scripted transport; the module conversions used to compare representations are the library's own (checked by C02/C07)."),
+    "C15": ("exploration",
+            "CommonView.tla table (response type -> common accessor -> path in the specific response) enumerated by TLC; every accessor, "
+            "as_json and as_original compared with the table on responses decoded from replies over all layout shapes",
+            "15 response types and their player types: accessor values, the as_json form, per-player name/score and as_original are compared "
+            "with the path the specification gives, on thousands of decoded (and, for Eco, directly generated) response values.",
+            "A table check; cells the documentation does not settle are marked free and not checked."),
+    "C16": ("model_checking",
+            "MasterServer.tla (filter groups as maps, insertion = replace within group; paging with seed chaining) model-checked with TLC "
+            "(LastWins, SeedChains, StopsAtTerminator, AllAddresses); every insertion sequence / page sequence TLC enumerates is replayed",
+            "All insertion sequences of length <= 2 (quick) / <= 3 (thorough) over 18 filter kinds x 3 groups are performed through the public "
+            "API; the emitted request is parsed by a reference grammar and must denote exactly the model's groups; all page sequences of up to "
+            "4 / 6 pages with lengths {0,1,2,230} are served and the returned list and the seed of every follow-up request compared.",
+            "Trusted: TLC, the harness's reference grammar parser."),
+    "C18": ("fault_enumeration",
+            "Settings.tla (construction path x durations x retries; ZeroRejected, NonZeroAccepted) enumerated by TLC; every configuration is "
+            "constructed through the real path and every accepted one used for queries on the scripted transport and on real sockets",
+            "All (read, write, connect) in {None, 0, 1 ns, 1 ms, u64::MAX s}^3 x retries in {0,1,2,MAX-1,MAX} x {new, Default, command line, "
+            "serde}: zero must be rejected (InvalidInput), every accepted configuration is used for 13 entry points against valid / malformed / "
+            "silent servers and on real loopback UDP/TCP sockets without panicking.",
+            "A silent server with a huge retry count is legitimately retried for ever and is not run."),
     "C17": ("model_checking",
             "TLA+ reference model (Buffer.tla, VarInt.tla) checked with TLC; TLC-generated transitions replayed into the real code; "
             "recorded traces validated by TLC (Trace_Buffer.tla)",
